@@ -10,6 +10,7 @@ from __future__ import annotations
 import asyncio
 import os
 import socket
+import weakref
 from contextlib import closing, AsyncExitStack
 from typing import Any, Callable
 
@@ -104,9 +105,15 @@ class Conn:
         self.reader = reader
         self.writer = writer
         self.task = task
-        self.state = state
+        # weak: the harness must not keep a finished connection's state (and
+        # with it its SelectedMailbox, which pymap tracks in a WeakSet) alive
+        self._state = weakref.ref(state) if state is not None else None
         self.sent = bytearray()
         self.eof_sent = False
+
+    @property
+    def state(self) -> Any:
+        return self._state() if self._state is not None else None
 
     def feed(self, data: bytes) -> None:
         self.sent += data
